@@ -41,6 +41,15 @@ of ANY table of the connection (#entries, #postings, the typed tables #transacti
            of their own and the connections of the concurrent run).
       C2S  seeded runs of 2..4 threads with random jobs (any table, text or syntax tree) over 1..3 connections, grant
            log judged by Trace_Isolate.
+      Sub-expression steps and FROM-subqueries (same modules): a target / WHERE conjunct can be a FUNCTION CALL whose
+      operands are evaluated one by one (Arg1, ArgYield, Arg2, Apply: the thread is descheduled BETWEEN the operands,
+      the value -- a column or a query parameter -- of the first one already evaluated), realised by the library's
+      own date_add / date_diff / round / maxwidth and by the binary operators + and -; a statement can select FROM
+      (SELECT <columns> AS <names>) with the same names at different positions in different statements, descheduled
+      between the construction of the subquery's table (SubTable) and the resolution of the enclosing statement's
+      names.  MC: MC_Isolate_expr (2 threads, every interleaving; OwnOperands, OwnNames); non-vacuity: one operand list
+      per function (MC_Isolate_operands) and one name -> position map for all subquery tables (MC_Isolate_subcols)
+      are refuted.  S2C families func, funcw, subq, subq3; the random jobs of C2S draw calls and subqueries too.
 """
 import json
 import random
@@ -372,6 +381,12 @@ def run(ctx):
         '(generated rule methods, semantic actions, node constructors), reached by a sys.monitoring (PEP 669, CPython '
         '3.12) PY_START callback that acts only in scheduled threads; which of them (job.parse of about 400 per '
         'statement) is a function of the case number; pre-emption inside TatSu\'s own functions is not driven',
+        'Isolate: a function call of the specification (two operands, the thread descheduled between them) is realised by '
+        'date_add(date, int), date_diff(date, date), round(int, int), maxwidth(str, int) and by the operators + / - over '
+        'the tables\' own columns, the pause point sitting inside the second operand; calls with three operands, '
+        'aggregates above calls and the same function nested in its own operand are not driven.  The subquery of a '
+        'FROM-subquery renames plain columns (no WHERE, no pause point inside): its own scan is evaluated when the outer '
+        'scan opens and its interleavings are those of a plain scan',
     ]
     rng = ctx.rng
     sched.register()
@@ -523,14 +538,21 @@ def shared_text_leg(ctx, nruns):
 # ---- the whole execution: compilation + scan, plain columns, parameters (spec/Isolate.tla) -----------------------------------
 ICOVER = ('ParseStart', 'Token', 'ParseEnd', 'Begin', 'From', 'Resolve', 'Bind', 'CompilePause', 'Build', 'NextRow', 'Finish', 'Test', 'Column', 'Yield',
           'Const', 'EmitRow')
+ECOVER = ('Begin', 'From', 'Inner', 'SubTable', 'Resolve', 'Bind', 'CompilePause', 'Build', 'NextRow', 'Finish', 'Test', 'Column',
+          'Yield', 'Const', 'EmitRow', 'Arg1', 'ArgYield', 'Arg2', 'Apply')
 ISO_LIMITS = {'params': (20, None), 'star': (20, None), 'rows': (70, None), 'tables': (110, None), 'mix3': (120, 3000),
               'sep3': (80, 2000), 'parse': (20, None), 'parse3': (40, 600), 'typed': (35, None),
-              'typed3': (70, None)}        # schedules replayed per family (quick, thorough); None = all
-ISO_REPEAT = {'params': 2, 'star': 1, 'rows': 3, 'typed': 3}     # small families: every schedule with several column choices
+              'typed3': (70, None), 'func': (35, None), 'funcw': (70, 1500), 'subq': (56, None),
+              'subq3': (60, 200)}        # schedules replayed per family (quick, thorough); None = all
+ISO_REPEAT = {'params': 2, 'star': 1, 'rows': 3, 'typed': 3, 'func': 2}     # small families: every schedule with several column choices
 
 
 def atom(k, i=0):
     return {'k': k, 'i': i}
+
+
+def fn(op, a, b):
+    return {'k': 'fn', 'i': 0, 'op': op, 'a': a, 'b': b}
 
 
 def random_jobs(rng):
@@ -553,6 +575,7 @@ def random_jobs(rng):
         tab = rng.choice('epx' if len(typed) == 1 else 'epxxx')
         return tab, (rng.choice(typed) if tab == 'x' else 0)
     hot = pick_table()
+    hot_op = rng.choice(('add', 'first'))
     of_conn = {c: ledgers[rng.choice((1, 2))] for c in range(1, nconn + 1)}
     conns = list(range(1, nconn + 1)) + [rng.randint(1, nconn) for _ in range(nt - nconn)]
     rng.shuffle(conns)
@@ -561,17 +584,31 @@ def random_jobs(rng):
         # the threads of a run tend to meet in one table (same table object when they share the connection)
         tab, ty = hot if rng.random() < 0.5 else pick_table()
         star = rng.random() < 0.15
+        # the threads of a run tend to call the same function (op): one operand list per function is what they could share
+        call = lambda: fn(hot_op if rng.random() < 0.7 else rng.choice(('add', 'first')), rng.randint(1, 3), rng.randint(1, 3))   # noqa
         targets = [] if star else [rng.choice((atom('col', 1), atom('col', 2), atom('col', 2), atom('col', 3), atom('rp'),
-                                               atom('rp'), atom('cp'))) for _ in range(rng.randint(1, 4))]
-        if not star and not any(a['k'] == 'col' for a in targets):
+                                               atom('rp'), atom('cp'), call(), call())) for _ in range(rng.randint(1, 4))]
+        if not star and not any(a['k'] in ('col', 'fn') for a in targets):
             targets.insert(rng.randint(0, len(targets)), atom('col', 2))
         where = rng.sample(['lo', 'hi', 'rp', 'cp'], rng.choice((0, 1, 1, 2, 2, 3)))
+        # the same tests written as function calls, the value the first operand
+        where = ['f' + k if k in ('lo', 'hi') and rng.random() < 0.35 else k for k in where]
         keys = [r[0] for r in iso.table_rows(of_conn[c], tab, ty)] or [10]
+        # (TatSu needs twice the time for a statement with nested calls: those are submitted as text less often)
+        heavy = any(a['k'] == 'fn' for a in targets) or any(k in ('flo', 'fhi') for k in where)
+        # FROM (SELECT ... ): the names the statement uses, in any order, possibly with others
+        sub = []
+        if rng.random() < 0.3:
+            used = {a['i'] for a in targets if a['k'] == 'col'} | {x for a in targets if a['k'] == 'fn' for x in (a['a'], a['b'])}
+            used |= {1} if any(k in ('lo', 'hi', 'flo', 'fhi') for k in where) else set()
+            sub = sorted(used | {x for x in (1, 2, 3) if rng.random() < 0.4}) or [rng.randint(1, 3)]
+            rng.shuffle(sub)
         jobs.append({'conn': c, 'ledger': of_conn[c], 'tab': tab, 'star': star, 'targets': targets,
                      'where': [atom(k) for k in where], 'lo': rng.choice(keys + [min(keys) - 1]),
                      'hi': rng.choice(keys + [max(keys) + 1]), 'lit': rng.random() < 0.4,
-                     'wpause': star and rng.random() < 0.6, 'ppause': rng.random() < 0.5, 'ty': ty,
-                     'parse': rng.choice((0, 0, 0, 0, 0, 0, 1, 2))})
+                     'wpause': star and not sub and rng.random() < 0.6, 'ppause': rng.random() < 0.5, 'ty': ty,
+                     'parse': rng.choice((0, 0, 0, 0, 0, 0, 1, 2)) if not (sub or heavy) else rng.choice((0,) * 12 + (1, 2)),
+                     'sub': sub})
     return jobs
 
 
@@ -630,6 +667,11 @@ def iso_record(ctx, nruns, rng):
         if i % 4 == 0:      # the same statements one after the other on the same connections
             serial = iso.run_serial(case)
             for t in range(1, nt + 1):
+                if isinstance(serial[t], iso.SerialFailure):
+                    ctx.violation(iso_key(jobs, 'serial:exception:%s:%s' % (type(serial[t].ex).__name__, iso.shape(jobs[t - 1]))),
+                                  'a statement run alone after the concurrent run fails: %s' % texts[t],
+                                  dict(desc, kind='iso-serial', tid=t), 'C2S', None, repr(serial[t]))
+                    continue
                 lines.append({'k': 'serial', 'id': rid, 'job': jobs[t - 1], 'rows': serial[t]})
         meta[rid] = dict(desc=desc, rows=results, texts=texts)
         ctx.case(json.dumps(['iso', jobs, s.log]), nontrivial=len(set(s.log)) > 1)
@@ -681,15 +723,29 @@ def isolate_start(ctx):
         out['trace'] = ctx.tlc('Trace_Isolate', 'Trace_Isolate.cfg', leg='C2S', workers=1, env={'TRACE_FILE': path},
                                timeout=ctx.pick(900, 3000), jvm=('-Xss64m',))
         return out
-    pool = cf.ThreadPoolExecutor(1)
+
+    def work2():
+        # function calls and FROM-subqueries: a chain of its own, so that the first one is not longer than it was
+        out = {}
+        out['mce'] = ctx.tlc('MC_Isolate', 'MC_Isolate_expr.cfg', leg='MC', workers=4, must_cover=ECOVER)
+        out['nv5'] = ctx.tlc('MC_Isolate', 'MC_Isolate_operands.cfg', leg='MC-nonvacuity', expect_violation='OwnOperands',
+                             workers=2)
+        out['nv6'] = ctx.tlc('MC_Isolate', 'MC_Isolate_subcols.cfg', leg='MC-nonvacuity', expect_violation='OwnNames', workers=2)
+        return out
+    pool = cf.ThreadPoolExecutor(2)
     fut = pool.submit(work)
+    fut2 = pool.submit(work2)
     pool.shutdown(wait=False)
-    return dict(future=fut, lines=lines, meta=meta, probe=probe, nruns=nruns, rng=rng)
+    return dict(future=fut, future2=fut2, lines=lines, meta=meta, probe=probe, nruns=nruns, rng=rng)
 
 
 def isolate_finish(ctx, bg):
+    import time
+    t0 = time.monotonic()
     out = bg['future'].result()      # a MachineryError of the background thread is raised here
-    for k in ('mc2', 'mc3', 'mc3t'):
+    out.update(bg['future2'].result())
+    ctx.leg('MC', isolate_background_wait_s=round(time.monotonic() - t0, 1))
+    for k in ('mc2', 'mc3', 'mc3t', 'mce'):
         if k in out and out[k].violated:
             ctx.violation('spec:isolate:' + ','.join(out[k].violated), 'TLC violates the property on the property-conforming '
                           'mechanism of Isolate', {'behaviour': out[k].behaviour[:3000]}, 'MC')
@@ -698,7 +754,9 @@ def isolate_finish(ctx, bg):
         return [ln.split('<')[1].split(' ')[0] for ln in res.behaviour.split('\n')
                 if ln.startswith('State ') and '<' in ln and 'Initial' not in ln]
     ctx.leg('MC', isolate_compiler_per_connection_schedule=steps(out['nv1']), isolate_rowid_memo_schedule=steps(out['nv2']),
-            isolate_process_wide_parser_schedule=steps(out['nv3']), isolate_lazy_table_rows_schedule=steps(out['nv4']))
+            isolate_process_wide_parser_schedule=steps(out['nv3']), isolate_lazy_table_rows_schedule=steps(out['nv4']),
+            isolate_operand_list_per_function_schedule=steps(out['nv5']),
+            isolate_shared_subquery_columns_schedule=steps(out['nv6']))
     # ---- S2C
     rng = bg['rng']
     fams = {}
@@ -723,6 +781,7 @@ def isolate_finish(ctx, bg):
             keys = rng.sample(keys, limit)
         base = rng.randrange(10 ** 6)
         nrun = nbad = nser = 0
+        t0 = time.monotonic()
         for rep in range(ISO_REPEAT.get(name, 1) if ctx.quick else (7 if len(scheds) <= 500 else 1)):
             for sc in keys:
                 pick = base + nrun
@@ -739,7 +798,8 @@ def isolate_finish(ctx, bg):
                         if got[t] != exp[t]:
                             ctx.violation('exec:serial:' + iso.shape(jobs[t - 1]), 'a statement run alone does not return the '
                                           'rows of the specification: ' + case.statement(jobs[t - 1], t)[0],
-                                          dict(desc, kind='iso-serial', tid=t), 'S2C', exp[t], got[t])
+                                          dict(desc, kind='iso-serial', tid=t), 'S2C', exp[t],
+                                          repr(got[t]) if isinstance(got[t], iso.SerialFailure) else got[t])
                 s, results, excs, texts = iso.run_case(case, order=list(sc))
                 ok = iso_judge(ctx, 'S2C', case, desc, s, results, excs, texts, exp)
                 ctx.case(json.dumps(['iso', name, sc, pick]), nontrivial=len(set(sc)) > 1)
@@ -751,7 +811,8 @@ def isolate_finish(ctx, bg):
                                 'style': case.describe(), 'expected_rows': exp})
         total += nrun
         ctx.leg('S2C', **{'isolate_' + name: {'schedules_emitted': len(scheds), 'replays': nrun, 'serial_checks': nser,
-                                              'mismatching': nbad, 'connections': iso.conn_mode(jobs)}})
+                                              'mismatching': nbad, 'connections': iso.conn_mode(jobs),
+                                              'wall_s': round(time.monotonic() - t0, 1)}})
     ctx.leg('S2C', isolate_replays=total)
     # ---- C2S
     res = out['trace']
